@@ -18,7 +18,7 @@ import (
 var o *vh.Out
 
 var goIdents = []string{"a", "x", "c", "C", "py", "r", "i", "e", "p", "_", "x1", "_a", "A_b9", "foo", "Bar", "brea", "breakx", "é", "世界", "aé", "x٣", "ñandú"}
-var goNumbers = []string{"0", "1", "42", "1_000", "1__0", "1_", "0_1", "00", "007", "08", "09", "0128", "089i", "09.5", "08e1", "0x1F", "0X1f", "0x", "0x_1", "0x1_",
+var goNumbers = []string{"0", "1", "42", "1_000", "1__0", "1_", "0_1", "00", "007", "08", "09", "0128", "089i", "09.5", "08e1", "0x1F", "0X1f", "0x", "0x_1", "0x1_", "0x1_0.8", "0x_1.8", "0x1.8_", "0x1_.8", "0X1_F.p1", "0x1._8p1", "0b1_0.1", "0o1_7.5", "1_0.5e1_0", "1_0e_1", "0x1_0p1_0", "0_8", "0_9.5", "0__7",
 	"0x1.8p1", "0x1.8", "0x.p1", "0x1p", "0x1p-2", "0b101", "0b2", "0b", "0b1.0", "0o17", "0o8", "0o", "0o1e1", "1.", ".5", "1.5", "1e10", "1E+5", "1e-", "1e", "1e+",
 	"1_e1", "1._5", ".5e1", "0e0", "1i", "0i", "1.5i", "0x1i", "1e1i", "0b1i", "08i", "1p1", "0x1e1"}
 var goStrs = []string{`""`, `"a"`, `"a\nb"`, `"\""`, `"\q"`, `"\x41"`, `"\x4"`, `"\u12"`, `"\uD800"`, `"\U00110000"`, `"\777"`, `"\08"`, `"é世"`, "\"a\x00b\"", "\"a\xffb\"", `"a`, "\"a\nb\"", `"a\`,
